@@ -757,6 +757,175 @@ def cbc3_dec_call():
                            '7': after_chunks, '11': after_dec, 'end': end}, **steps))
 
 
+ECB_DEC_PRE = CLOSURE_PRE + '''
+        let ghost df = cipher.dec_fn();
+        let ghost m0 = buf0.in_val();
+'''
+
+
+def ecb_dec_uniq(variant, lhs):
+    return DEC_UNIQ % (lhs, 'ecb_cs_dec(%d, df, ps, t)' % variant)
+
+
+def ecb1_dec_call():
+    after_cut = '''
+        let ghost hb = blocks;
+        let ghost nh = hb.out_cur().len() as int;
+        proof {
+            if dd > 0 { assert(aviews(hb.in_val()) =~= ps0.take(nb - 1)); assert(nh == nb - 1); }
+            else { assert(aviews(hb.in_val()) =~= ps0); assert(nh == nb); }
+        }
+'''
+    after_dec = '''
+        let ghost head = if dd > 0 { ps0.take(nb - 1) } else { ps0 };
+        let ghost hp = ecb_map(df, head);
+        proof { assert(aviews(hb.out_fut()) =~= hp); }
+'''
+    early = '''
+            proof {
+                assert(tail.out_cur() =~= Seq::<u8>::empty());
+                assert(buf.out_cur() =~= flatg(hp));
+                assert(buf.out_cur() == ecb_cs_dec(1, df, ps0, t0));
+''' + ecb_dec_uniq(1, 'buf.out_cur()') + '''
+            }
+'''
+    before_split = '''
+        let ghost mid_g = (nb - 1) * bl;
+        let ghost before = buf.out_cur();
+        proof {
+            assert(before == flatg(aviews(ab.out_fut())) + tail.out_cur());
+            assert(ab.out_fut().len() == nb);
+            assert(ab.out_fut() =~= hb.out_fut().push(ab.out_fut()[nb - 1]));
+            assert(aviews(ab.out_fut()) =~= hp.push(ab.out_fut()[nb - 1]@));
+            flatg_push(hp, ab.out_fut()[nb - 1]@);
+            assert((nb - 1) * bl + bl == nb * bl) by (nonlinear_arith);
+            flatg_len(hp, bl);
+            flatg_len(ps0, bl);
+            flatg_len(ps0.take(nb - 1), bl);
+            assert(ps0 =~= ps0.take(nb - 1).push(ps0[nb - 1]));
+            flatg_push(ps0.take(nb - 1), ps0[nb - 1]);
+            assert(before.take(mid_g) =~= flatg(hp));
+            assert(buf.in_val().skip(mid_g) =~= ps0[nb - 1] + t0);
+        }
+'''
+    steps = {
+        '10': '''
+        let ghost xx = ps0[nb - 1] + t0;
+        let ghost c_star = xx.take(dd);
+        let ghost c_n = xx.skip(dd);
+        let ghost z = df(c_n);
+        let ghost c_pen = c_star + z.skip(dd);
+        assert(rem.in_val() =~= xx);
+        assert(n == dd);
+''',
+        '11': 'assert(block1@ =~= ps0[nb - 1]);',
+        '12': 'assert(block2@ =~= c_n);',
+        '13': 'assert(block2@ == z);',
+        '14': 'assert(block1@ =~= c_pen);',
+        '15': 'assert(block1@ == df(c_pen));',
+    }
+    end = '''
+        proof {
+            let tailp = ecb_cs_dec_tail(df, c_star, c_n);
+            assert(rem.out_cur() =~= tailp);
+            assert(buf0.out_fut() =~= flatg(hp) + tailp);
+            assert(cs_dec_pieces(1, ps0, t0) == (head, c_star, c_n));
+            assert(buf0.out_fut() == ecb_cs_dec(1, df, ps0, t0));
+''' + ecb_dec_uniq(1, 'buf0.out_fut()') + '''
+        }
+'''
+    return FnC(props=PG, inherits=True, attrs=['#[verifier::loop_isolation(false)]'],
+               stmts=dict({'0': ECB_DEC_PRE, '2': AFTER_CHUNKS, '3': after_cut, '4': after_dec, '4.0.0': early, '7': before_split, 'end': end}, **steps))
+
+
+AFTER_ECB_DEC = '''
+        let ghost zs = ecb_map(df, ps0);
+        proof { assert(aviews(blocks.out_cur()) =~= zs); }
+'''
+
+
+def ecb23_steal(variant, prefix):
+    # statement addresses differ: CS2 is straight-line (prefix ''), CS3 sits in the else branch (prefix '3.1.')
+    base = {'': 4, '3.1.': 0}[prefix]
+    a = lambda k: '%s%d' % (prefix, base + k)
+    return {
+        a(2): '''
+        let ghost c_n = ps0[nb - 1];
+        let ghost z = df(c_n);
+        let ghost c_pen = t0 + z.skip(dd);
+''' + ZERO_HINT,
+        a(5): 'assert(block@ =~= c_pen);',
+        a(7): 'assert(block@ == df(c_pen));',
+    }
+
+
+def ecb_dec_steal_end(variant):
+    return '''
+            let z = df(ps0[nb - 1]);
+            let c_pen = t0 + z.skip(dd);
+            let outs = aviews(blocks.out_cur());
+            assert(buf.out_cur() == flatg(outs) + tail.out_cur());
+            assert(outs =~= zs.take(nb - 1).push(df(c_pen)));
+            flatg_push(zs.take(nb - 1), df(c_pen));
+            assert(tail.out_cur() =~= z.take(dd));
+            assert(zs.take(nb - 1) =~= ecb_map(df, ps0.take(nb - 1)));
+            assert(cs_dec_pieces(%d, ps0, t0) == (ps0.take(nb - 1), t0, ps0[nb - 1]));
+            assert(buf.out_cur() =~= flatg(ecb_map(df, ps0.take(nb - 1))) + ecb_cs_dec_tail(df, t0, ps0[nb - 1]));
+''' % variant
+
+
+def ecb2_dec_call():
+    early = '''
+            proof {
+                assert(tail.out_cur() =~= Seq::<u8>::empty());
+                assert(buf.out_cur() =~= flatg(zs));
+                assert(buf.out_cur() == ecb_cs_dec(2, df, ps0, t0));
+''' + ecb_dec_uniq(2, 'buf.out_cur()') + '''
+            }
+'''
+    end = '''
+        proof {
+''' + ecb_dec_steal_end(2) + '''
+            assert(buf.out_cur() == ecb_cs_dec(2, df, ps0, t0));
+''' + ecb_dec_uniq(2, 'buf.out_cur()') + '''
+        }
+'''
+    return FnC(props=PG, inherits=True, attrs=['#[verifier::loop_isolation(false)]'],
+               stmts=dict({'0': ECB_DEC_PRE, '2': AFTER_CHUNKS, '3': AFTER_ECB_DEC, '3.0.0': early, 'end': end}, **ecb23_steal(2, '')))
+
+
+def ecb3_dec_call():
+    end = '''
+        proof {
+            let outs = aviews(blocks.out_cur());
+            assert(buf.out_cur() == flatg(outs) + tail.out_cur());
+            if dd == 0 {
+                assert(tail.out_cur() =~= Seq::<u8>::empty());
+                if nb > 1 {
+                    assert(outs =~= zs.take(nb - 2).push(zs[nb - 1]).push(zs[nb - 2]));
+                    flatg_push(zs.take(nb - 2).push(zs[nb - 1]), zs[nb - 2]);
+                    flatg_push(zs.take(nb - 2), zs[nb - 1]);
+                    assert(zs.take(nb - 2) =~= ecb_map(df, ps0.take(nb - 2)));
+                    let zz = df(ps0[nb - 2]);
+                    assert(ps0[nb - 1] + zz.skip(bl as int) =~= ps0[nb - 1]);
+                    assert(zz.take(bl as int) =~= zz);
+                    assert(cs_dec_pieces(3, ps0, t0) == (ps0.take(nb - 2), ps0[nb - 1], ps0[nb - 2]));
+                    assert(ecb_cs_dec_tail(df, ps0[nb - 1], ps0[nb - 2]) =~= zs[nb - 1] + zs[nb - 2]);
+                    assert(buf.out_cur() =~= flatg(ecb_map(df, ps0.take(nb - 2))) + ecb_cs_dec_tail(df, ps0[nb - 1], ps0[nb - 2]));
+                } else {
+                    assert(outs =~= zs);
+                }
+            } else {
+''' + ecb_dec_steal_end(3) + '''
+            }
+            assert(buf.out_cur() == ecb_cs_dec(3, df, ps0, t0));
+''' + ecb_dec_uniq(3, 'buf.out_cur()') + '''
+        }
+'''
+    return FnC(props=PG, inherits=True, attrs=['#[verifier::loop_isolation(false)]'],
+               stmts=dict({'0': ECB_DEC_PRE, '2': AFTER_CHUNKS, '3': AFTER_ECB_DEC, 'end': end}, **ecb23_steal(3, '3.1.')))
+
+
 def variant_mod(fname, obj, cbc, variant, enc_call=None, dec_call=None):
     modname = 'cts_' + fname
     b = 'C::BlockSize::USIZE as nat'
@@ -821,6 +990,6 @@ def unit():
                       variant_mod('cbc_cs1', 'CbcCs1', True, 1, enc_call=cbc_enc_call(1), dec_call=cbc12_dec_call(1)),
                       variant_mod('cbc_cs2', 'CbcCs2', True, 2, enc_call=cbc_enc_call(2), dec_call=cbc12_dec_call(2)),
                       variant_mod('cbc_cs3', 'CbcCs3', True, 3, enc_call=cbc_enc_call(3), dec_call=cbc3_dec_call()),
-                      variant_mod('ecb_cs1', 'EcbCs1', False, 1, enc_call=ecb_enc_call(1)),
-                      variant_mod('ecb_cs2', 'EcbCs2', False, 2, enc_call=ecb_enc_call(2)),
-                      variant_mod('ecb_cs3', 'EcbCs3', False, 3, enc_call=ecb_enc_call(3))])
+                      variant_mod('ecb_cs1', 'EcbCs1', False, 1, enc_call=ecb_enc_call(1), dec_call=ecb1_dec_call()),
+                      variant_mod('ecb_cs2', 'EcbCs2', False, 2, enc_call=ecb_enc_call(2), dec_call=ecb2_dec_call()),
+                      variant_mod('ecb_cs3', 'EcbCs3', False, 3, enc_call=ecb_enc_call(3), dec_call=ecb3_dec_call())])
